@@ -220,7 +220,7 @@ static void check_attributes(vf_rng_t *r, int stride, int phase)
 /* ------------------------------------------------------------------ (a) */
 #define NKEYS 5
 static char g_keys[NKEYS];
-typedef struct { dispatch_queue_t q; int target; void *vals[NKEYS]; int conc; } inode_t;
+typedef struct { dispatch_queue_t q; int target; void *vals[NKEYS]; int conc; int workloop; } inode_t;
 typedef struct { inode_t n[8]; int nn; _Atomic uint64_t checks, dtors; uint64_t salt; } itrial_t;
 typedef struct { itrial_t *t; int qi; const char *path; _Atomic int *done; } iitem_t;
 
@@ -268,7 +268,10 @@ static void run_specific_trial(vf_rng_t *r)
 		int depth = 0; for (int k = n->target; k >= 0; k = t->n[k].target) depth++;
 		if (depth >= 3) n->target = -1;
 		char label[32]; snprintf(label, sizeof(label), "vf.ident.n%d", i);
-		n->q = dispatch_queue_create_with_target(label, n->conc ? DISPATCH_QUEUE_CONCURRENT : DISPATCH_QUEUE_SERIAL, n->target >= 0 ? t->n[n->target].q : NULL);
+		/* a hierarchy may also end in a workloop, which carries queue-specific data like any queue */
+		n->workloop = (n->target < 0 && vf_rnd_n(r, 3) == 0);
+		if (n->workloop) n->q = (dispatch_queue_t)dispatch_workloop_create(label);
+		else n->q = dispatch_queue_create_with_target(label, n->conc ? DISPATCH_QUEUE_CONCURRENT : DISPATCH_QUEUE_SERIAL, n->target >= 0 ? t->n[n->target].q : NULL);
 		for (int k = 0; k < NKEYS; k++) {
 			if (vf_rnd_n(r, 3) == 0) {
 				n->vals[k] = (void *)((uintptr_t)t + 1 + (uintptr_t)(i * NKEYS + k));
@@ -287,12 +290,14 @@ static void run_specific_trial(vf_rng_t *r)
 		static const char *paths[] = { "dispatch_async", "dispatch_sync", "dispatch_barrier_async", "dispatch_barrier_sync", "dispatch_async_and_wait", "dispatch_group_async", "dispatch_apply", "source-handler" };
 		for (int p = 0; p < 8; p++) { items[i][p].t = t; items[i][p].qi = i; items[i][p].path = paths[p]; items[i][p].done = &done; }
 		dispatch_async_f(q, &items[i][0], iitem); expect_done++;
-		dispatch_sync_f(q, &items[i][1], iitem); expect_done++;
-		dispatch_barrier_async_f(q, &items[i][2], iitem); expect_done++;
-		dispatch_barrier_sync_f(q, &items[i][3], iitem); expect_done++;
 		dispatch_async_and_wait_f(q, &items[i][4], iitem); expect_done++;
 		dispatch_group_async_f(g, q, &items[i][5], iitem); expect_done++;
-		dispatch_apply_f(3, q, &items[i][6], iapply); expect_done += 3;
+		if (!t->n[i].workloop) {   /* dispatch_sync / barriers / apply are not defined on a workloop itself */
+			dispatch_sync_f(q, &items[i][1], iitem); expect_done++;
+			dispatch_barrier_async_f(q, &items[i][2], iitem); expect_done++;
+			dispatch_barrier_sync_f(q, &items[i][3], iitem); expect_done++;
+			dispatch_apply_f(3, q, &items[i][6], iapply); expect_done += 3;
+		}
 		/* dispatch_queue_get_specific reads the queue itself only */
 		for (int k = 0; k < NKEYS; k++) if (dispatch_queue_get_specific(q, &g_keys[k]) != t->n[i].vals[k]) vf_violation("C18:queue_get_specific", "dispatch_queue_get_specific returned a value that was not set on that queue");
 		/* source handler targeting the queue */
@@ -307,7 +312,7 @@ static void run_specific_trial(vf_rng_t *r)
 		dispatch_source_cancel(ds);
 		dispatch_release(ds);
 		/* sync from inside an item of ANOTHER queue: the chain is that of the queue submitted to */
-		if (i > 0 && !chain_contains(t, i, 0) && !chain_contains(t, 0, i)) {
+		if (i > 0 && !t->n[i].workloop && !t->n[0].workloop && !chain_contains(t, i, 0) && !chain_contains(t, 0, i)) {
 			iitem_t *inner = &items[i][1];
 			dispatch_sync(t->n[0].q, ^{ dispatch_sync_f(q, inner, iitem); });
 			expect_done++;
@@ -333,6 +338,7 @@ static void run_specific_trial(vf_rng_t *r)
 	dispatch_release(g);
 	vf_count("get_specific_checks", atomic_load(&t->checks));
 	vf_count("specific_hierarchies", 1);
+	for (int i = 0; i < t->nn; i++) if (t->n[i].workloop) { int used = 0; for (int k = 0; k < t->nn; k++) if (t->n[k].target == i) used = 1; if (used) vf_count("specific_hierarchies_on_workloop", 1); }
 	vf_count("specific_destructors", nvals);
 	/* t leaked on purpose: a late destructor may still touch it */
 }
